@@ -534,8 +534,13 @@ class _Scan(DefaultVisitor):
             and self.alias.region_of_expr(stmt.expr) is not None
         ):
             d = self.def_use.find_def_from_site(stmt.var, stmt)
-            if (r := self.alias.region_of(d, len(stmt.indices))) is not None:
+            # replacing a slot detaches everything reachable through it, so a
+            # projection of a *deeper* slot (`cell = xsss[0][1]` before
+            # `xsss[0] = ...`) must not follow the new list either
+            depth = len(stmt.indices)
+            while (r := self.alias.region_of(d, depth)) is not None:
                 self.slot_replaced.add(r)
+                depth += 1
         super()._visit_indexed_assign(stmt, ctx)
 
     def _visit_call(self, e: Call, ctx):
